@@ -71,6 +71,31 @@ def generated_jobs(pid, tier, seed):
                                      "CoulombNearby.number_event_handlers=4", "CoulombSurplus.number_event_handlers=4",
                                      "LennardJonesNearby.number_event_handlers=4",
                                      "LennardJonesSurplus.number_event_handlers=4"]))
+    out.append(dict(name="gen_atoms_cellveto_crowded", config=P + "coulomb_atoms/cell_veto.ini", seed=seed + 21, legs=legs * 2,
+                    sets=["RandomInputHandler.number_of_root_nodes=36", "FinalTimeEndOfRunEventHandler.end_of_run_time=12",
+                          "CuboidPeriodicCells.cells_per_side=3, 3, 5", "SingleProcessMediator.scheduler=list_scheduler",
+                          "CoulombNearby.number_event_handlers=36", "CoulombSurplus.number_event_handlers=36"]))
+    out.append(dict(name="gen_atoms_cellveto_speed", config=P + "coulomb_atoms/cell_veto.ini", seed=seed + 17, legs=legs,
+                    sets=["InitialChainStartOfRunEventHandler.speed=2.5", "FinalTimeEndOfRunEventHandler.end_of_run_time=6"]))
+    cfgdir = os.path.join(os.path.dirname(os.path.dirname(os.path.abspath(__file__))), "harness", "configs")
+    out.append(dict(name="gen_cuboid_cells_soft", config=os.path.join(cfgdir, "cuboid_cells_soft.ini"), seed=seed + 18,
+                    legs=legs * 3, sets=[]))
+    HD = ["InputOutputHandler.input_handler=random_input_handler", "RandomInputHandler.random_node_creator=dipole_random_node_creator",
+          "DipoleRandomNodeCreator.min_initial_dipole_separation=0.96", "DipoleRandomNodeCreator.max_initial_dipole_separation=1.04",
+          "DipoleRandomNodeCreator.charge_values=electric_charge_values (charge_values)",
+          "FinalTimeEndOfRunEventHandler.end_of_run_time=400"]
+    out.append(dict(name="gen_hd_dipoles_3", config="config_files/hard_disk_dipoles/hard_disk_dipoles.ini", seed=seed + 19,
+                    legs=legs * 2, sets=HD + ["RandomInputHandler.number_of_root_nodes=3",
+                                              "SingleIndependentActiveSequentialDirectionEndOfChainEventHandler.chain_time=1.3"]))
+    out.append(dict(name="gen_hd_dipoles_cells_4", config="config_files/hard_disk_dipoles/hard_disk_dipoles_cells.ini",
+                    seed=seed + 20, legs=legs * 2, sets=HD + ["RandomInputHandler.number_of_root_nodes=4"]))
+    if pid == "C17":
+        # runs that reach their configured end, so that the count / end-time clauses are evaluated
+        for n, (cfg, end, interval) in enumerate(((P + "dipoles/dipole_motion.ini", "7.3", "0.21"),
+                                                  (P + "coulomb_atoms/power_bounded.ini", "9.1", "0.37"),
+                                                  (P + "water/single_molecule.ini", "3.2", "0.11"))):
+            out.append(dict(name="gen_c17_end%d" % n, config=cfg, seed=seed + 20 + n, legs=None,
+                            sets=["FinalTimeEndOfRunEventHandler.end_of_run_time=" + end]))
     if pid in ("C10", "C11", "C18"):
         out = [j for j in out if "cell" in j["name"]]
     if pid == "C12":
